@@ -314,6 +314,26 @@ def run(chk: Check, tier: str):
             continue
         traces.append(to_trace(r))
         keep.append(r)
+    # which completion orders of parallel calls were actually observed (positions of the answers relative to submission order)
+    orders = set()
+    for r in keep:
+        evs = r["events"]
+        i = 0
+        while i < len(evs):
+            if evs[i]["ev"] == "call" and evs[i]["multi"]:
+                sub = [b[1] for b in evs[i]["batch"]]
+                got = []
+                j = i + 1
+                while j < len(evs) and evs[j]["ev"] not in ("return", "raise"):
+                    if evs[j]["ev"] == "answer":
+                        got.append(evs[j]["q"])
+                    j += 1
+                if len(sub) >= 2 and len(set(sub)) == len(sub) and sorted(sub) == sorted(got):
+                    orders.add(tuple(sub.index(q) for q in got))
+                i = j
+            i += 1
+    chk.cov["parallel_completion_orders_observed"] = sorted(map(list, orders))[:40]
+    chk.cov["parallel_completion_orders_distinct"] = len(orders)
     chk.cov["scenarios"] = len(scen)
     chk.cov["scenarios_invalid"] = invalid
     chk.add_eval(sum(len(c["batch"]) for r in keep for c in r["sc"]["history"]))
